@@ -495,6 +495,16 @@ def check(ctx):
             r5.bad(V(r5.id, "NamingContext::event_name_to_function", "unmapped:%s" % "".join(sorted(need - replaced)),
                      "characters %s of Tauri event names survive into the function identifier" % sorted(need - replaced)))
         prefix = any(x.get("k") == "macro" and x["name"] == "format" and x.get("args") and (lit_str(x["args"][0]) or "").startswith("on") for x in walk_block(fn.body))
+        if not prefix:
+            # the same text assembled by hand: the returned String starts as the literal "on…" and is only appended to
+            tail = fn.body[-1] if fn.body else None
+            rv_ = expr_text(tail["e"]) if tail and tail.get("k") == "expr" and not tail.get("semi") else None
+            for st in fn.body:
+                if st.get("k") == "let" and rv_ and rv_ in pat_bindings(st["pat"]) and st.get("init") is not None:
+                    it_ = st["init"]
+                    l0 = lit_str(it_["args"][0]) if it_.get("k") == "call" and expr_text(it_["func"]) in ("String::from",) and it_.get("args") else (lit_str(it_["recv"]) if it_.get("k") == "mcall" and it_["method"] in ("to_string", "to_owned") else None)
+                    if (l0 or "").startswith("on") and not any(x.get("k") == "mcall" and x["method"] in ("insert", "insert_str", "clear", "truncate", "replace_range") and expr_text(x["recv"]) == rv_ for x in walk_block(fn.body)):
+                        prefix = True
         if prefix:
             r5.ok("identifier starts with the literal prefix `on` (a leading digit in the event name cannot start the identifier)")
         else:
